@@ -502,8 +502,17 @@ func (t *FnTrans) instrWrites(in ssa.Instruction, l *loopInfo) {
 		}
 	}
 	tmp := &loopInfo{writes: map[string]bool{}, via: map[string][]ssa.Value{}, viaBad: map[string]bool{}, body: l.body}
+	t.viaCalls, t.viaNoted = true, map[string]bool{}
 	t.instrWritesRaw(in, tmp)
+	t.viaCalls = false
 	for c := range tmp.writes {
+		if t.viaNoted[c] && !tmp.viaBad[c] {
+			// written by a callee only at a location given by a loop-invariant base
+			for _, v := range tmp.via[c] {
+				t.noteVia(l, c, v)
+			}
+			continue
+		}
 		l.viaBad[c] = true
 	}
 }
@@ -670,6 +679,23 @@ func (t *FnTrans) callWrites(c *ssa.CallCommon, l *loopInfo) {
 	} else {
 		pkg = t.fn.Pkg.Pkg
 	}
+	if ct.DeclPkg != "" {
+		if sp := t.eng.byPath[ct.DeclPkg]; sp != nil {
+			pkg = sp.Pkg
+		}
+	}
+	// actual argument values by parameter name (for *param targets that are field addresses)
+	t.staticArgs = map[string]ssa.Value{}
+	var actualV []ssa.Value
+	if c.IsInvoke() {
+		actualV = append(actualV, c.Value)
+	}
+	actualV = append(actualV, c.Args...)
+	for i, n := range pn {
+		if i < len(actualV) {
+			t.staticArgs[n] = actualV[i]
+		}
+	}
 	for _, m := range ct.Modifies {
 		if !t.staticMod(m.E, ptypes, pkg, l) {
 			l.all = true
@@ -765,6 +791,9 @@ func (t *FnTrans) staticMod(x *Expr, ptypes map[string]types.Type, pkg *types.Pa
 		}
 		if a.Op == "id" {
 			T = lookupT(a.Name)
+			if T == nil {
+				T = t.typeParam(a.Name)
+			}
 		}
 		if T == nil {
 			return false
@@ -797,6 +826,26 @@ func (t *FnTrans) staticMod(x *Expr, ptypes map[string]types.Type, pkg *types.Pa
 		}
 		return false
 	case x.Op == "un" && x.Name == "*":
+		if x.Args[0].Op == "id" {
+			if av, ok := t.staticArgs[x.Args[0].Name]; ok {
+				switch a := av.(type) {
+				case *ssa.FieldAddr:
+					t.staticAddrComps(av, l)
+					if _, nested := a.X.(*ssa.FieldAddr); !nested && t.viaCalls {
+						if comp, ft, ok := t.staticFieldComp(a); ok {
+							if _, isS := t.resolve(ft).Underlying().(*types.Struct); !isS {
+								t.noteVia(l, comp, a.X)
+								t.viaNoted[comp] = true
+							}
+						}
+					}
+					return true
+				case *ssa.IndexAddr, *ssa.Global:
+					t.staticAddrComps(av, l)
+					return true
+				}
+			}
+		}
 		T := t.staticType(x.Args[0], ptypes)
 		if T == nil {
 			return false
